@@ -576,6 +576,25 @@ def cases_single_opcode(tier):
         yield {"byte": b}
 
 
+def with_fresh_tools(oracle):
+    """the same oracle on a ScriptTools object built here from the public factory (what an integration for another coin
+    does), not on the one created when the library was imported: two objects from one factory encode alike"""
+    def f(case):
+        global ST, STREAMER
+        from pycoin.coins.bitcoin.ScriptStreamer import make_script_streamer
+        from pycoin.satoshi import opcodes as _opcodes
+        from pycoin.satoshi.IntStreamer import IntStreamer as _IntStreamer
+        from pycoin.vm.ScriptTools import ScriptTools as _ScriptTools
+        old = (ST, STREAMER)
+        ST = _ScriptTools(_opcodes.OPCODE_LIST, _IntStreamer, make_script_streamer())
+        STREAMER = ST.scriptStreamer
+        try:
+            return list(oracle(case)) + ["tools-built-from-the-factory"]
+        finally:
+            ST, STREAMER = old
+    return f
+
+
 SUBCHECKS = [
     SubCheck("ints_small_exhaustive", o_int, cases=cases_int_small, exhaustive=True, nontrivial=nt_int,
              rule="every integer |v| < 2^17: int_to_script_bytes == CScriptNum::serialize, strict and lenient decode return v; "
@@ -618,6 +637,9 @@ SUBCHECKS = [
              rule="scripts of 0..12 instructions drawn from the 110 single-byte opcodes of script.h and minimal pushes (lengths "
                   "0..80, 255, 256, 520, 65535, 65536, OP_n specials): compile(disassemble(s)) == s on BTC/LTC/BCH/XTN; "
                   "non-trivial = contains a PUSHDATA or OP_n-form push"),
+    SubCheck("pushes_fresh_tools", with_fresh_tools(o_push), strategy=s_push, budget=(400, 15000), nontrivial=nt_push,
+             rule="the pushes_generated oracle on a ScriptTools object built per case from the public factory "
+                  "(make_script_streamer + ScriptTools), as a second coin's integration would build one"),
     SubCheck("text_near_templates", o_text, strategy=s_near_templates, budget=(2000, 60000),
              nontrivial=lambda c, l: c.get("shape") != "exact",
              rule="scripts with the fixed bytes and the exact length of a standard output script (p2pkh, p2sh, p2wpkh, p2wsh, p2tr, p2pk, "
